@@ -351,6 +351,18 @@ impl Monitor {
                 if e.text.is_empty() {
                     return Some(Violation::new("C01/empty-error-text", e.kind.clone(), "empty error text"));
                 }
+                if e.kind.starts_with("Syntax(Tokenization") {
+                    // the offending source line of a line that cannot be tokenized is the line just typed
+                    if let (Op::Line(typed), Ok(lines)) = (op, &e.caret) {
+                        if e.line.is_some() || lines.first() != Some(typed) {
+                            return Some(Violation::new(
+                                "C01/caret-wrong-line",
+                                format!("tokenization error attributed to line {:?}", e.line),
+                                format!("`{}` for the typed line {:?} is rendered as {:?} (line {:?})", e.text, typed, lines, e.line),
+                            ));
+                        }
+                    }
+                }
             }
             Res::Ok => {}
         }
@@ -388,7 +400,17 @@ fn no_residual_nesting(s: &Sess, op: &Op) -> Option<Violation> {
     if s.poisoned {
         return None;
     }
-    let d = s.probe(false).nesting_depth;
+    let p = s.probe(false);
+    if s.state() == St::Running && p.location.1 >= p.line_tokens.len() {
+        // Running means "there is a next token to execute": with the position at or past the end of
+        // its line a tick executes nothing and leaves the state Running, forever (a livelock)
+        return Some(Violation::new(
+            "C01/stuck-running",
+            "running without a next token".to_string(),
+            format!("after {} the interpreter is Running at token {} of a {}-token line: every further tick does nothing and it never becomes idle", op_brief(op), p.location.1, p.line_tokens.len()),
+        ));
+    }
+    let d = p.nesting_depth;
     if d != 0 {
         return Some(Violation::new(
             "C01/residual-nesting-depth",
